@@ -46,6 +46,7 @@ def corpus(tier):
         ("char *p;\nvoid main() { p = @7@; }\n", ["-O0"], "literal marker in the source"), ("#define 123\nvoid main() { }\n", ["-O0"], "#define without a name"),
         ("char a[4]; void main() { a[++\"s\"] = 1; }\n", ["-O0"], "++ of a literal in a subscript"), ("void a() {}\nvoid (*tab[1])() = {a}\nvoid main() { }\n", ["-O0"], "table of function pointers"),
         ("NL\nNL\nvoid main() { x = 1; }\n", ["-O0", "-D", "NL=\n\n\n"], "-D value with line breaks, then an error to locate"),
+        ("char x; inline void f() { if (x) { x--; f(); } } void main() { f(); }\n", ["-O0"], "an inline function that calls itself"),
         ("=== ASSEMBLER BEGIN ===\n; codesize:\n\tNOP\n==== ASSEMBLER END ====\nvoid main() { }\n", ["-O0"], "assembler block with a header line cut short"))]
     # a store needs a place: these used to emit `STA #<arr`, `STA #0` (instructions that do not exist)
     rejected = [{"source": s_, "args": ["-O0"], "expect": {"panic": False, "is_error": True}, "note": n} for s_, n in (
@@ -94,7 +95,7 @@ def corpus(tier):
 def build(repo):
     u = Unit(NAME, TOOL, PROPS, [],
              assumptions=["BOUNDED: only the listed programs are covered"],
-             bounded=["the program lists of units/u_errs.py: 6 literals with backslashes before a quote, 4 literals with non-ASCII text in a table / an initialiser, 2 character-constant programs, 11 macro forms, 3 rejected stores, 9 located errors, 3 located errors inside multi-line statements (known finding), 15 inputs that used to panic or could"])
+             bounded=["the program lists of units/u_errs.py: 6 literals with backslashes before a quote, 4 literals with non-ASCII text in a table / an initialiser, 2 character-constant programs, 11 macro forms, 3 rejected stores, 9 located errors, 3 located errors inside multi-line statements (known finding), 16 inputs that used to panic or could"])
     u.text[None] = ""
     u.dropped = ["nothing is extracted: the whole compiler runs (vf/probe)"]
     return u
